@@ -7,8 +7,8 @@ setup: coq models
 
 coq:
 	python3 tools/translate_status.py || true
-	cd coq && coq_makefile -f _CoqProject -o Makefile >/dev/null
-	cd coq && timeout 3000 $(MAKE) -j16 -k
+	python3 tools/mkcoqproject.py
+	cd coq && timeout 3000 $(MAKE) -j16 -k || echo "WARNING: some Coq files failed to build (the affected checks will report it)"
 
 models:
 	tools/build_models.sh
